@@ -14,7 +14,7 @@ OLD = "1.2.3"
 def random_conf(rng, tools):
     return dict(vcs=rng.choice(tools), cfg=list(rng.choice(CFG_TRIPLES)), fcommit=rng.choice(["unset", "unset", "yes", "no"]), ftag=rng.choice(["unset", "unset", "yes", "no"]),
                 fpush=rng.choice(["unset", "unset", "yes", "no"]), pre=rng.choice(["absent", "ok", "fail", "unstartable"]), post=rng.choice(["absent", "ok", "fail", "unstartable"]), hooksrc=rng.choice(["config", "cli"]),
-                dirty=rng.random() < 0.25, allow=rng.random() < 0.4, tagmsg=rng.random() < 0.6, remote=rng.random() < 0.7, dry=rng.random() < 0.2, fetch=rng.random() < 0.7,
+                dirty=rng.random() < 0.25, dirtypat=rng.random() < 0.15, allow=rng.random() < 0.4, tagmsg=rng.random() < 0.6, remote=rng.random() < 0.7, dry=rng.random() < 0.2, fetch=rng.random() < 0.7,
                 failat=rng.choice(FAILABLE + ["none"] * 6), ignore=rng.random() < 0.2, unique=rng.random() < 0.25)
 
 
@@ -26,12 +26,12 @@ def replay(job):
         fdir = os.path.join(d, "fake")
         fv = fakevcs.FakeVCS(fdir, tool)
         if tool == "git":
-            fv.set(tags=["1.0.0", "junk"], tags_branch=["1.0.0"], status=" M other.txt\n" if conf["dirty"] else "",
+            fv.set(tags=["1.0.0", "junk"], tags_branch=["1.0.0"], status=(" M other.txt\n" if conf["dirty"] else "") + ([" M b.txt\n", "M  a.txt\n"][seed % 2] if conf.get("dirtypat") else ""),
                    branches=(["* main 1234abc [origin/main] msg\n", "  dev 111 [origin/dev] d\n* main 1234abc [upstream/main: ahead 1] msg\n"][seed % 2] if conf["remote"]
                              else ["* main 1234abc msg\n", "  dev 111 [origin/dev] d\n* main 1234abc msg\n"][seed % 2]),      # another branch tracks a remote, the current one does not
                    remote="", fail=FAKE_FAIL[conf["failat"]])
         else:
-            fv.set(tags=["tip 3:abc", "1.0.0 2:def"], tags_branch=["1.0.0"], status="M other.txt\n" if conf["dirty"] else "",
+            fv.set(tags=["tip 3:abc", "1.0.0 2:def"], tags_branch=["1.0.0"], status=("M other.txt\n" if conf["dirty"] else "") + (["M b.txt\n", "M a.txt\n"][seed % 2] if conf.get("dirtypat") else ""),
                    remote="default = https://example.com/repo\n" if conf["remote"] else "", fail=FAKE_FAIL[conf["failat"]])
         extra = {}
         hooks = {}
